@@ -346,12 +346,19 @@ def entry(chk: Check):
                     except S.EvalError:
                         return False
 
-                ok = kind == "return" and bool(find(hit[3], lambda x: x[0] == "call" and x[1] == "ext:struct.unpack" and _fmt_is(x[2][0])
-                                                    and bool(find(x[2][1], lambda y: y[0] == "slice" and y[1] == S.C(None) and y[2] == S.C(n)))))
+                def _is_n(y, n=n, val=val):
+                    try:
+                        return S.ev(y, val) == n
+                    except S.EvalError:
+                        return False
+
+                res_t = _resolve_ites(hit[3], val) if kind == "return" else None  # the arms this type takes
+                ok = kind == "return" and bool(find(res_t, lambda x: x[0] == "call" and x[1] == "ext:struct.unpack" and _fmt_is(x[2][0])
+                                                    and bool(find(x[2][1], lambda y: y[0] == "slice" and y[1] == S.C(None) and _is_n(y[2])))))
                 if tname == "Bool":
-                    ok = ok and hit[3][0] == "cmp" and hit[3][1] == "!=" and hit[3][3] == S.C(0)
+                    ok = ok and res_t[0] == "cmp" and res_t[1] == "!=" and res_t[3] == S.C(0)
                 else:
-                    ok = ok and hit[3][0] == "sub" and hit[3][2] == S.C(0)
+                    ok = ok and res_t[0] == "sub" and res_t[2] == S.C(0)
                 if not ok:
                     bad.append(f"{tname}: specified struct {fmt!r} of data[:{n}]" + (" != 0" if tname == "Bool" else "[0]"))
             elif tname in ("String", "Array"):
@@ -433,3 +440,17 @@ def file_object(chk: Check):
         want = ("ite", S.cmp_("==", N, S.C(-1)), size, ("min", (N, size)))
         chk.decide(S.equiv(t, want, n=60, domain=lambda l, r: r.choice([-1, 0, 5, 1 << 20]) if l == N else r.randrange(0, 1 << 16)).equal is True,
                    "K-FORMULA", "file-object-length", r_, "read(n) returns min(n, size) bytes, everything for n = -1", found=S.show(t)[:160])
+
+
+def _resolve_ites(t, val):
+    """Replace every conditional inside t by the arm it takes under the valuation (where the condition can be evaluated)."""
+    if not isinstance(t, tuple) or not t:
+        return t
+    if t[0] == "ite":
+        try:
+            return _resolve_ites(t[2] if S.ev(t[1], val) else t[3], val)
+        except S.EvalError:
+            return t
+    if t[0] in ("c", "p", "f", "unk", "self", "phi"):
+        return t
+    return tuple(_resolve_ites(x, val) if isinstance(x, tuple) else x for x in t)
